@@ -610,6 +610,9 @@ class Driver:
                     break
                 tried += 1
                 cand = dict(cand)
+                for k in ('run', 'seed'):
+                    if k in cur:
+                        cand.setdefault(k, cur[k])
                 if 'scratch' in cur:
                     cand['scratch'] = cur['scratch'] + '-m%d' % tried
                 out = run_one(mod, cand)
